@@ -9,7 +9,7 @@ from ..model import FuncInfo, ClassInfo, iter_own_nodes
 from ..report import AnalysisError
 from ..template import Evaluator, TStr, TObj, TAlt, TList, TBlock, RepL, AltL, Src, Sym, Cond, TNone, TRaise
 from ..links import (Scenario, PORT_KINDS, EventLoop, Frame, Link, walk, statements_of, parse_link, is_event_src,
-                     is_port_src, find_member_calls, toks_text, tok_text)
+                     is_port_src, find_member_calls, toks_text, tok_text, collect_loops)
 
 PROC = 'adv_shell.core.processing'
 
@@ -90,6 +90,36 @@ class Wiring:
                     out.append(ln)
                 elif any(t[0] == 'id' and t[1] in ('in', 'out') for t in st) and any(t == ('p', '=') for t in st):
                     problems.append(f'statement not recognised as a link: {toks_text(st)[:120]}')
+        return out, problems
+
+    def port_statements(self, entry: str, kind: str, val: Any = None, **scen_kw) -> Tuple[List[Tuple[List[tuple], Sym]], List[str]]:
+        """Statements emitted once per port of `kind` by loops over ports (not over events): [(tokens, port var)]."""
+        scen = self.scenario(entry, kind=kind, has_multiclient=(kind == 'P-MTS-multiclient'), **scen_kw)
+        val = self.values[entry] if val is None else val
+        val = scen.select(val)
+        out, problems = [], []
+        for lp in collect_loops(self.ev, val, is_port_src):
+            ok = True
+            for fr in lp.frames:
+                if fr.kind == 'cond' and scen.decide(fr.cond) is False:
+                    ok = False
+                if fr.kind == 'rep' and is_port_src(fr.src) and scen.accepts_port(fr.src) is False:
+                    ok = False
+            if not ok:
+                continue
+            r = scen.accepts_port(lp.src)
+            if r is False:
+                continue
+            if r is None:
+                problems.append(f'port loop `{lp.src!r}` cannot be evaluated for kind {kind}')
+                continue
+            # conditions on the loop variable inside the body are decided by the kind as well
+            body = scen.simplify(lp.body)
+            for st in statements_of(body):
+                # skip nested per-event repetitions (handled by links())
+                if any(t[0] == 'rep' and is_event_src(t[1].src) for t in st):
+                    continue
+                out.append((st, lp.src.var))
         return out, problems
 
     def port_var(self, lp: EventLoop) -> Optional[Sym]:
